@@ -248,6 +248,47 @@ Example ex_height_codec : enc_height 256 = [0; 1; 0; 0; 0; 0; 0; 0]%N /\ dec_hei
   /\ dec_height [1; 2; 3]%N = None.
 Proof. vm_compute. repeat split; reflexivity. Qed.
 
+(* THE CALLER'S OBJECTS.  SaveBlockData takes pointers and the reads hand pointers back; between two calls the caller
+   may modify, in place, the header / data object it passed to its latest save or was given by its latest read
+   (Model/StoreCaller.v: CMutSaved, CMutRead - what publishBlockInternal does between the early and the final save of
+   a block).  For EVERY history with such modifications anywhere in it: what the store returns and the database it
+   leaves are those of the calls alone; two callers making the same calls get the same results whatever they do to
+   their objects; and the refinement theorem holds as it stands - every read returns what the latest acknowledged
+   write STORED, never what the caller's object has become since. *)
+From Verif Require Import Model.StoreCaller Proofs.StoreCallerProofs.
+Theorem C14_caller_objects_invisible_full : forall h : list citem,
+  coutputs h = outputs (erase h) /\ cfinal h = final (erase h).
+Proof. exact caller_objects_invisible. Qed.
+Print Assumptions C14_caller_objects_invisible_full.
+
+Theorem C14_same_calls_same_results_full : forall h1 h2 : list citem,
+  erase h1 = erase h2 -> coutputs h1 = coutputs h2 /\ cfinal h1 = cfinal h2.
+Proof. exact same_calls_same_results. Qed.
+Print Assumptions C14_same_calls_same_results_full.
+
+Theorem C14_refines_under_caller_modifications_full : forall h : list citem,
+  hash_consistentb (saves (erase h)) = true ->
+  exists happened,
+    coutputs h = snd (a_run a_init (erase h) happened) /\
+    R (cfinal h) (fst (a_run a_init (erase h) happened)).
+Proof. exact store_refines_caller. Qed.
+Print Assumptions C14_refines_under_caller_modifications_full.
+
+(* non-vacuity: the early save of hA, the caller sets another signature on the very object (hA' : same hash, other
+   bytes) and other data, reads; reads and modifies what it was given, reads again; all reads return what was saved *)
+Definition hA' := {| hid := 11; hheight := 5; hhash := "aa" |}.
+Definition ex_caller_history : list citem :=
+  [ CI (IOp (OSave hA 1 1)); CMutSaved (Some hA') (Some 2%N); CI (IOp (OGetBlock 5)); CI (IOp (OGetHeader 5));
+    CMutRead (Some hA') None; CI (IOp (OGetByHash "aa")); CMutRead (Some hB) (Some 3%N); CI (IOp (OGetBlock 5));
+    CI IReopen; CI (IOp (OGetBlock 5)) ].
+Example ex_caller_outputs :
+  coutputs ex_caller_history =
+  [ Some RUnit; Some (RBlock hA 1); Some (RHeader hA); Some (RBlock hA 1); Some (RBlock hA 1); None; Some (RBlock hA 1) ]
+  /\ modifications ex_caller_history = 3%nat
+  /\ hash_consistentb (saves (erase ex_caller_history)) = true
+  /\ c_saved (fst (crun c_init ex_caller_history)) = {| o_hdr := Some hA'; o_data := Some 2%N |}.
+Proof. vm_compute. repeat split; reflexivity. Qed.
+
 (* REFINEMENT FROM TRANSLATED CODE.  [step m (OSetHeight n)] and [step m (OSave h d s)] are what DefaultStore.SetHeight and
    DefaultStore.SaveBlockData do — the Go functions themselves (pkg/store/store.go, with Height, GetHeader, encodeHeight,
    decodeHeight inside them), translated from /repo's source on every run and evaluated by Model/GoLite.v against a
